@@ -277,13 +277,17 @@ def c02_r5(ctx):
     ctx.check(good, key(gf, "identity"), "the gql helper emitted into the client is not the identity function", gf.loc(), okmsg="gql() helper is the identity")
     # add_method: operation name and string provenance
     am = repo.func(CGEN + "add_method")
-    env = {st.targets[0].id: st.value for st in am.node.body if isinstance(st, ast.Assign) and len(st.targets) == 1 and isinstance(st.targets[0], ast.Name)}
-    on = env.get("operation_name")
-    good = on is not None and norm(on) in ("definition.name.value if definition.name else ''",)
-    for c in walk_no_nested(am.node):
-        if isinstance(c, ast.Call) and dotted(c.func) in ("self._generate_subscription_method_def", "self._generate_async_method", "self._generate_method"):
-            good = good and norm(kw(c, "operation_name") or ast.Constant(0)) == "operation_name" and norm(kw(c, "operation_str") or ast.Constant(0)) == "operation_str" \
-                and norm(kw(c, "return_type") or ast.Constant(0)) == "return_type" and norm(kw(c, "arguments_dict") or ast.Constant(0)) == "arguments_dict"
+    gens = ("self._generate_subscription_method_def", "self._generate_async_method", "self._generate_method")
+    good = True
+    seen_calls = 0
+    for named, want in ((True, "definition.name.value"), (False, "''")):
+        outs = Interp(am, lambda e, named=named: (named if norm(strip_pre(e)) == "definition.name" else None), is_effect=lambda c: dotted(c.func) in gens).run()
+        for o in outs:
+            for c in [x for x in o.effects if isinstance(x, ast.Call) and dotted(x.func) in gens]:
+                seen_calls += 1
+                good = good and norm(strip_pre(kw(c, "operation_name") or ast.Constant(0))) == want and norm(strip_pre(kw(c, "operation_str") or ast.Constant(0))) == "operation_str" \
+                    and norm(strip_pre(kw(c, "return_type") or ast.Constant(0))) == "return_type" and norm(strip_pre(kw(c, "arguments_dict") or ast.Constant(0))) in ("arguments_dict", "self.arguments_generator.generate(definition.variable_definitions)[1]")
+    good = good and seen_calls >= 2
     ctx.check(good, key(am, "operation name"), "operationName is not the name of the operation definition / operation string not forwarded", am.loc(), okmsg="operation_name = definition.name.value; operation_str forwarded")
     ao = repo.func(PG + ".add_operation")
     c = calls_named(ao.node, "self.client_generator.add_method")
@@ -629,17 +633,12 @@ def c04_r8(ctx):
     fi = repo.func("client_generators.enums:EnumsGenerator._parse_enum_definition")
     reserved, path = _enum_reserved_names()
     # abstract evaluation of the member-name mapping on the three classes of names
-    asg = [st for st in ast.walk(fi.node) if isinstance(st, ast.Assign) and is_name(st.targets[0], "name")]
-    if len(asg) != 1:
-        raise AnalysisError("_parse_enum_definition: member-name assignment not found")
-    mapping = asg[0].value
-    src_var = None
-    for lp in ast.walk(fi.node):
-        if isinstance(lp, ast.For) and isinstance(lp.target, ast.Tuple):
-            inner = lp.target.elts[1]
-            if isinstance(inner, ast.Tuple):
-                src_var = norm(inner.elts[0])
-    txt = norm(mapping)
+    loops = [lp for lp in ast.walk(fi.node) if isinstance(lp, (ast.For, ast.ListComp)) and "values.items()" in norm(lp.iter if isinstance(lp, ast.For) else lp.generators[0].iter)]
+    if len(loops) != 1:
+        raise AnalysisError("_parse_enum_definition: loop over the enum values not found")
+    asg = [loops[0]]
+    # everything that computes the member name inside the loop (conditional expression, if statement or helper alike)
+    txt = norm(loops[0])
     handles_kw = "iskeyword(" in txt
     handles_enum = any(tok in txt for tok in ("mro", "_is_dunder", "_is_sunder", "RESERVED", "reserved"))
     ctx.check(handles_kw, key(fi, "keyword escape"), "Python keywords are not escaped in enum member names", fi.loc(asg[0]), okmsg="enum members: Python keywords escaped")
